@@ -144,7 +144,20 @@ def make_cases(ctx, first):
         else:
             # disabled APIs on a writable store
             conf2 = mkconf(store=rng.choice(["mem", "dir"]), push=rng.random() < 0.5, delete=rng.random() < 0.5, blobdelete=rng.random() < 0.5)
-            w = gen.World(rng, conf2, repos=["a", "a/b"], profile=PROFILE)
+            if conf2["store"] == "dir" and (i // 5) % 2 == 1:
+                # the registry was filled while everything was allowed, then restarted with APIs switched off: what is there can be
+                # read, and named as the source of a mount, but nothing is added or removed through a disabled API
+                conf = mkconf(store="dir", withsubj=False)
+                w = gen.World(rng, conf, repos=["a", "a/b"], profile=PROFILE)
+                w.run(steps)
+                conf2 = dict(conf2, withsubj=False)
+                w.add(dict(kind="restart", impl=dict(op="restart", conf=conf2), model=sl("setcfg", s_cfg(conf2))))
+                w.conf = conf2
+                for _ in range(6):
+                    w.mount()
+            else:
+                conf = conf2
+                w = gen.World(rng, conf2, repos=["a", "a/b"], profile=PROFILE)
             mode = None
             modelled = True
         start = len(w.steps)
@@ -161,7 +174,7 @@ def make_cases(ctx, first):
             s["conf_now"] = conf2
             if not modelled and s["kind"] != "freeze":
                 s["model"] = "(skip)"
-        case = dict(id=first + i, conf=(conf if variant in (0, 1) else conf2), steps=w.steps, contents=sorted(w.contents), seed=seed)
+        case = dict(id=first + i, conf=(conf if variant in (0, 1, 4) else conf2), steps=w.steps, contents=sorted(w.contents), seed=seed)
         cases.append(case)
     return cases
 
